@@ -47,7 +47,9 @@ ContinueIf(c, ln)  == [k |-> "continueif", c |-> c, ln |-> ln]
 NoUse == [alias |-> FALSE, n |-> ""]
 Ref(n) == [alias |-> FALSE, n |-> n]
 Alias(n) == [alias |-> TRUE, n |-> n]
-Written(r) == IF r.alias THEN "~" \o r.n ELSE r.n
+\* (RefVia: the same file written with a path prefix that changes nothing - "./", "layouts/../")
+RefVia(pre, n) == [alias |-> FALSE, n |-> n, pre |-> pre]
+Written(r) == IF r.alias THEN "~" \o r.n ELSE IF "pre" \in DOMAIN r THEN r.pre \o r.n ELSE r.n
 Resolve(r, prefix) == IF r.alias THEN prefix \o "/" \o r.n ELSE r.n
 \* statements of template trees (machine K links them, see TwLink): unlinked forms as written in a file ...
 Reserve(n, ln)         == [k |-> "reserve", name |-> n, ln |-> ln]
